@@ -350,4 +350,39 @@ theorem tracker_sound (recs : List Rec) (hw : ∀ rc ∈ recs, rc.WF) (p q : Int
     rw [hr] at f2
     rw [hr, hb] at f3
     omega
+/-- formats whose data scanner never sees an end-of-line symbol (EMBL / UniProt / GenBank / DDBJ: the newline is an ignored byte):
+    the tracker never establishes a width, so their index never carries the fast-subsequence flag (always brute-force addressing) -/
+theorem no_eol_no_geometry (evs : List Ev) (h : ∀ e ∈ evs, e = Ev.hdr ∨ ∃ b r, e = Ev.stop b r) :
+    (run {} evs).rpl = -1 ∧ (run {} evs).bpl = -1 := by
+  suffices ∀ t : Track, t.rpl = -1 → t.bpl = -1 → t.prvrpl = -1 → t.prvbpl = -1 →
+      (run t evs).rpl = -1 ∧ (run t evs).bpl = -1 by exact this {} rfl rfl rfl rfl
+  induction evs with
+  | nil => intro t h1 h2 _ _; exact ⟨h1, h2⟩
+  | cons e es ih =>
+    intro t h1 h2 h3 h4
+    have he := h e (by simp)
+    have hes : ∀ e' ∈ es, e' = Ev.hdr ∨ ∃ b r, e' = Ev.stop b r := fun e' h' => h e' (by simp [h'])
+    show (run (step t e) es).rpl = -1 ∧ _
+    rcases he with rfl | ⟨b, r, rfl⟩
+    · exact ih hes _ h1 h2 rfl rfl
+    · obtain ⟨g1, g2, g3, g4⟩ := lg_cur (t.advance b r) false
+      have a3 : (t.advance b r).prvrpl = -1 := h3
+      have a4 : (t.advance b r).prvbpl = -1 := h4
+      have a1 : (t.advance b r).rpl = -1 := h1
+      have a2 : (t.advance b r).bpl = -1 := h2
+      have fR : (t.advance b r).R = -1 := by unfold Track.R Track.fullLine; rw [a3, a1]; simp
+      have fB : (t.advance b r).Bq = -1 := by unfold Track.Bq Track.fullLine; rw [a3, a2]; simp
+      have r1 := lg_rpl (t.advance b r) false
+      have r2 := lg_bpl (t.advance b r) false
+      rw [fR, fB, a1] at r1
+      rw [fR, fB, a2] at r2
+      have e1 : (step t (Ev.stop b r)).rpl = -1 := by
+        show ((t.advance b r).lineGeometry false).rpl = -1
+        rw [r1]; split <;> simp
+      have e2 : (step t (Ev.stop b r)).bpl = -1 := by
+        show ((t.advance b r).lineGeometry false).bpl = -1
+        rw [r2]; split <;> simp
+      exact ih hes _ e1 e2 (by show ((t.advance b r).lineGeometry false).prvrpl = -1; rw [g3]; exact a3)
+        (by show ((t.advance b r).lineGeometry false).prvbpl = -1; rw [g4]; exact a4)
+
 end EaselModel.Sqio.Tracker
